@@ -972,13 +972,6 @@ def monitor_restart_cb(drv, obs, events):
             continue
         ob = obs[i]
         if not d2.called and not ob["req_pending"] and T_RETRY not in ob["timers"]:
-            steps, _ = split_steps(drv.trace)
-            if any(o[0] == OUT_SHUTDOWN_D for o in steps[i]):
-                # candidate finding F-C13-7 (reported, not repaired): the stop() that fired the start Deferred was the one at
-                # the end of shutdown(); _shuttingdown is still set while the callback runs, so the retry after the
-                # immediately-failed first request of the nested start() is dropped.  Counted, not a violation.
-                drv.candidates = getattr(drv, "candidates", 0) + 1
-                continue
             bad.append(("C14_retry_fires", i, "the consumer restarted from the start Deferred's callback (start(%d) accepted, its "
                         "start Deferred pending) has no request outstanding and no retry timer: it never retries and never fails: %r" % (off, ob)))
         later_stop = any(s > step for (s, _, _, _, _, _) in drv.restart_log) or \
@@ -1003,7 +996,6 @@ def restart_cb_family(ck, rnd, pres, reps, replay_tag="restartcb"):
     """every state class, then something that makes stop() fire the start Deferred, with the restarting callback attached;
     -> (runs, restarts made, failing)"""
     runs = restarts = failing = 0
-    ck.cov.setdefault("restart_cb_candidate_F_C13_7", 0)
     for _ in range(reps):
         for name, kw, pre in pres:
             for stopper in RESTART_STOPPERS:
@@ -1028,7 +1020,6 @@ def restart_cb_family(ck, rnd, pres, reps, replay_tag="restartcb"):
                         restarts += len(drv.restart_log)
                         ck.hist("restart_from_start_callback:%s:%s" % (mode, "failed-first-request" if fail_first else "plain"), len(drv.restart_log))
                         bad = monitor_restart_cb(drv, obs, evs)
-                        ck.cov["restart_cb_candidate_F_C13_7"] += getattr(drv, "candidates", 0)
                         if bad:
                             failing += 1
                             if failing <= 2:
@@ -1049,3 +1040,16 @@ def replay_restart_cb(rp):
     bad = monitor_restart_cb(drv, obs, events)
     print("monitor verdict:", bad if bad else "passes")
     return 1 if bad else 0
+
+
+def probe_F_C13_7():
+    """F-C13-7 (repaired in /repo 7d0d3e7): the stop() at the end of shutdown() fired the start Deferred while _shuttingdown was
+    still set; a callback there that called start() and whose first request failed at once lost its retry (dropped by the
+    _shuttingdown guard of _retry_fetch): started, start Deferred pending, no request, no timer.
+    -> (observed, cfg, events, driver, observations)"""
+    cfg = Cfg(group=0, maxatt=3, buf=4096, maxbuf=4096)
+    events = [(EV_START, 0), (EV_SHUTDOWN,)]
+    drv, obs, applied = run_restart_cb(cfg, events, "cb", True, drain=0)
+    made = [x for x in drv.restart_log if x[1] == "succ" and x[2] == "ret"]
+    observed = bool(made) and not made[0][5].called and not obs[1]["req_pending"] and T_RETRY not in obs[1]["timers"]
+    return observed, cfg, events, drv, obs
